@@ -90,12 +90,23 @@ func (s *Sim) RandSendSpec(callKinds []string) SendSpec {
 		t := cands[s.Rng.Intn(len(cands))]
 		sp.Token = t
 		max := int64(5000)
+		f := int64(1)
 		if t.Origin != src {
+			// back transfer of wrapped tokens: the user must hold amount*10^scale wrapped units
+			for i := uint8(0); i < t.Scale[src.Name]; i++ {
+				f *= 10
+			}
 			bal := src.ERC20Balance(t.Wrapped[src.Name], u.Eth)
-			if bal.IsInt64() && bal.Int64() < max {
-				max = bal.Int64()
+			units := new(big.Int).Div(bal, big.NewInt(f))
+			if units.IsInt64() && units.Int64() < max {
+				max = units.Int64()
 			}
 		}
+		if max < 1 {
+			max = 1
+		}
+		// the amount of a cross-chain call is always given in ORIGIN units; for a wrapped token the endpoint
+		// burns amount*10^scale wrapped units
 		sp.Amount = big.NewInt(1 + s.Rng.Int63n(max))
 	}
 	if len(callKinds) > 0 && (sp.Token == nil || s.Rng.Intn(3) == 0) {
